@@ -282,9 +282,9 @@ func c17CheckSplit(b c17Built) (string, string) {
 	if err != nil {
 		return "split-error", fmt.Sprintf("SplitStatementToPieces(%q) error %v", b.Text, err)
 	}
-	if len(b.Stmts) == 0 && len(got) == 1 && strings.TrimSpace(got[0]) == "" {
-		// a text without any statement: the fast path hands back the blank text itself; a
-		// blank piece is not a statement (the session answers it like MySQL's "Query was
+	if len(b.Stmts) == 0 && len(got) == 1 && (strings.TrimSpace(got[0]) == "" || (!strings.Contains(strings.TrimSuffix(b.Text, ";"), ";") && got[0] == strings.TrimSuffix(b.Text, ";"))) {
+		// a text without any statement (blank, or comments only with no ';' except a final one): the fast path
+		// hands back the text itself; such a piece is not a statement (the session answers it like MySQL's "Query was
 		// empty"); oracle 2 still demands that nothing reaches a backend.
 		return "", ""
 	}
@@ -616,6 +616,12 @@ func c17Shrink(c c17Case, fails func(c17Case) bool) c17Case {
 				d.Shapes[i] = "plain"
 				cands = append(cands, d)
 			}
+			if sh.Bad && s != "x_rbracket" {
+				d := cur
+				d.Shapes = append([]string{}, cur.Shapes...)
+				d.Shapes[i] = "x_rbracket"
+				cands = append(cands, d)
+			}
 			if sh.Empty && s != "e_none" {
 				d := cur
 				d.Shapes = append([]string{}, cur.Shapes...)
@@ -701,8 +707,13 @@ func TestVerif_C17(t *testing.T) {
 		if viaRig {
 			ev = evalRig
 		}
-		min := c17Shrink(c, func(d c17Case) bool { cl, _ := ev(d); return cl == clause })
-		_, mwhat := ev(min)
+		// shrink on "fails at all" (one defect shows up under several clauses depending on the
+		// shape around it); the signature carries the clause of the minimal case
+		min := c17Shrink(c, func(d c17Case) bool { cl, _ := ev(d); return cl != "" && cl != "io" })
+		mclause, mwhat := ev(min)
+		if mclause != "" {
+			clause = mclause
+		}
 		if mwhat == "" {
 			mwhat = what
 		}
